@@ -1,6 +1,6 @@
 (* Proofs about Model/CrashFS.v (C05): with the repaired write protocol no crash point exposes a partially
    written file under a real (non-temporary) name; a resumed run recomputes no stored element. *)
-From Verif Require Import Base.Prelude Base.StrUtil Base.Index Base.NdArr Base.PyRange Base.StrOrd
+From Verif Require Import Base.Prelude Base.StrUtil Base.Index Base.NdArr Base.PyRange Base.StrSeq
   Model.MapSpec Model.MapSpecSpec Model.MapRun Model.SymBody
   Proofs.IndexFacts Proofs.StrFacts Proofs.MapSpecFacts.
 From Verif Require Import Model.MapResume Model.FixedSpec Proofs.MapResumeFacts Model.CrashFS.
